@@ -19,8 +19,9 @@ def run_tlc(module, cfg, workers=8, env=None, timeout=1500, extra=(), tag="tlc",
     e = dict(os.environ)
     if env:
         e.update(env)
-    if java_opts:
-        e["JAVA_TOOL_OPTIONS"] = java_opts
+    # deep recursion over long record lists (a 20 000-byte write under max_fragment_length 512 is 40 records): give TLC's
+    # worker threads a stack that holds it
+    e["JAVA_TOOL_OPTIONS"] = ("-Xss512m " + (java_opts or "")).strip()
     cmd = ["timeout", str(timeout), "tlc", "-workers", str(workers), "-metadir", md, "-config", cfg] + list(extra) + [module]
     t0 = time.time()
     p = subprocess.run(cmd, cwd=SPEC, env=e, capture_output=True, text=True)
